@@ -5,9 +5,9 @@
 pub mod verif {
     use super::*;
 
-    pub fn drive_reorder_buffer<Db: KvDatabase>(
+    pub fn drive_reorder_buffer<Db: KvDatabase, const N: usize>(
         db: &Db,
-        arrivals: Vec<(u64, Db::SerializationBuffer)>,
+        arrivals: [(u64, Db::SerializationBuffer); N],
         shutting_down: bool,
     ) {
         let (after_commit_sender, after_commit_receiver) =
@@ -18,7 +18,7 @@ pub mod verif {
         let mut holdback_queues = BinaryHeap::new();
 
         let mut current_batch = CurrentBatch {
-            processed_logical_batch: Vec::new(),
+            processed_logical_batch: Default::default(),
             db_write_batch: db.write_batch(),
             expected_epoch: Epoch(0),
         };
